@@ -58,3 +58,44 @@ Proof.
   unfold field_equiv, f'. cbn [rf_member rf_typath rf_ty rf_attrs]. repeat split. rewrite Hfa.
   exact (member_attrs_respelled be (Some (rf_ty f)) pre l trailing post bark Hf).
 Qed.
+
+Lemma variant_equiv_refl be bark : forall l, Forall2 (variant_equiv be bark) l l.
+Proof. induction l; constructor; [repeat split; apply field_equiv_refl|assumption]. Qed.
+
+(* respelling the attributes of any one variant of an enum, or of any one payload field of a variant: whole outcome unchanged *)
+Theorem respelling_whole_derive_variant : forall be order order_tp x vs1 v vs2 pre l trailing post attrs bark,
+    ri_data x = REnum (vs1 ++ v :: vs2) -> rv_attrs v = pre ++ o2o_attr (group_toks l trailing) :: post ->
+    Forall (fun x => ordinary be (fst x) /\ mb_stable (fst x) = true) l ->
+    get_data_type_attrs be (ri_attrs x) = Ok (attrs, bark) ->
+    raw_has_none x = false ->
+    let v' := {| rv_ident := rv_ident v; rv_shape := rv_shape v; rv_attrs := pre ++ bares l ++ post; rv_fields := rv_fields v |} in
+    raw_has_none (with_data x (REnum (vs1 ++ v' :: vs2))) = false ->
+    derive_model be order order_tp x = derive_model be order order_tp (with_data x (REnum (vs1 ++ v' :: vs2))).
+Proof.
+  intros be order order_tp x vs1 v vs2 pre l trailing post attrs bark Hd Hva Hf Hg Hn v' Hn'.
+  apply (equivalent_members_whole_derive be order order_tp x _ attrs bark Hg); [|exact Hn|exact Hn'].
+  rewrite Hd. cbn [data_equiv].
+  apply Forall2_app; [apply variant_equiv_refl|]. constructor; [|apply variant_equiv_refl].
+  unfold variant_equiv, v'. cbn [rv_ident rv_shape rv_fields rv_attrs]. repeat split; [apply field_equiv_refl|]. rewrite Hva.
+  exact (member_attrs_respelled be None pre l trailing post bark Hf).
+Qed.
+
+Theorem respelling_whole_derive_payload_field : forall be order order_tp x vs1 v vs2 fs1 f fs2 pre l trailing post attrs bark,
+    ri_data x = REnum (vs1 ++ v :: vs2) -> rv_fields v = fs1 ++ f :: fs2 -> rf_attrs f = pre ++ o2o_attr (group_toks l trailing) :: post ->
+    Forall (fun x => ordinary be (fst x) /\ mb_stable (fst x) = true) l ->
+    get_data_type_attrs be (ri_attrs x) = Ok (attrs, bark) ->
+    raw_has_none x = false ->
+    let f' := {| rf_member := rf_member f; rf_typath := rf_typath f; rf_ty := rf_ty f; rf_attrs := pre ++ bares l ++ post |} in
+    let v' := {| rv_ident := rv_ident v; rv_shape := rv_shape v; rv_attrs := rv_attrs v; rv_fields := fs1 ++ f' :: fs2 |} in
+    raw_has_none (with_data x (REnum (vs1 ++ v' :: vs2))) = false ->
+    derive_model be order order_tp x = derive_model be order order_tp (with_data x (REnum (vs1 ++ v' :: vs2))).
+Proof.
+  intros be order order_tp x vs1 v vs2 fs1 f fs2 pre l trailing post attrs bark Hd Hvf Hfa Hf Hg Hn f' v' Hn'.
+  apply (equivalent_members_whole_derive be order order_tp x _ attrs bark Hg); [|exact Hn|exact Hn'].
+  rewrite Hd. cbn [data_equiv].
+  apply Forall2_app; [apply variant_equiv_refl|]. constructor; [|apply variant_equiv_refl].
+  unfold variant_equiv, v'. cbn [rv_ident rv_shape rv_fields rv_attrs]. repeat split. rewrite Hvf.
+  apply Forall2_app; [apply field_equiv_refl|]. constructor; [|apply field_equiv_refl].
+  unfold field_equiv, f'. cbn [rf_member rf_typath rf_ty rf_attrs]. repeat split. rewrite Hfa.
+  exact (member_attrs_respelled be (Some (rf_ty f)) pre l trailing post bark Hf).
+Qed.
